@@ -75,3 +75,7 @@ func verifNoteTxn(s *Syncer, txnID header.TxnID) {
 		VerifNoteTxn(s, txnID)
 	}
 }
+
+// VerifSetLastSnapshotTime moves the time of the last snapshot (the forced periodic snapshot
+// is due when it lies further back than storage_force_snapshot_interval).
+func (s *Syncer) VerifSetLastSnapshotTime(t time.Time) { s.lastSnapshotTime = t }
